@@ -40,3 +40,30 @@ Proof.
     by (destruct Hi as [<-|[<-|[<-|[]]]]; vm_compute; reflexivity).
   split; [exact Hf|]. apply (D0 i Hi). exact Hf.
 Qed.
+
+(* ... and so are those of proposal_delivered_then_commits: from the very start of the height, member 0's PREPREPARE
+   delivered to members 2 and 3 makes them accept, and the theorem yields the rest of the schedule *)
+Definition ppA : msg := MPP (rf T_PREPREPARE 0 hA) (sg 0) (Some blkA).
+Example proposal_example :
+  exists ext, wrun 1 cm4 honest4 cfg4 nowm noshut fresh0 lead1 ([] ++ deliveries_of_proposal cm4 0 Q3 ppA ++ ext) /\
+    forall i, In i Q3 -> In (0, hA) (D (nstate 1 cm4 cfg4 nowm noshut fresh0 lead1 i ([] ++ deliveries_of_proposal cm4 0 Q3 ppA ++ ext))).
+Proof.
+  assert (Qnd : NoDup Q3) by (repeat constructor; cbn; intuition discriminate).
+  assert (Qgood : forall i, In i Q3 -> good cm4 honest4 i) by (intros i [<-|[<-|[<-|[]]]]; split; reflexivity).
+  assert (Qq : isQ_ids cm4 Q3 = true) by (vm_compute; reflexivity).
+  assert (Qthird : forall i, In i Q3 -> exists j, In j Q3 /\ j <> i /\ j <> leaderOf cm4 0).
+  { intros i [<-|[<-|[<-|[]]]]; [exists 2|exists 3|exists 2]; cbn [Q3 In]; (split; [auto|split; [discriminate|vm_compute; discriminate]]). }
+  assert (JL : joined 1 cm4 cfg4 nowm noshut fresh0 lead1 0 hA [] (leaderOf cm4 0)).
+  { constructor; [vm_compute; reflexivity|eexists; split; vm_compute; reflexivity|intro Hx; exfalso; apply Hx; vm_compute; reflexivity]. }
+  assert (Ha : auth_msg 1 cm4 honest4 cfg4 nowm noshut fresh0 lead1 [] ppA).
+  { cbn [auth_msg ppA]. unfold auth_ref. intros _ _. genuine. }
+  assert (Hacc : forall i, In i Q3 -> i <> leaderOf cm4 0 ->
+            accepted (cfg4 i) (thandle (cfg4 i) None false (nstate 1 cm4 cfg4 nowm noshut fresh0 lead1 i []) ppA) 0 hA).
+  { intros i [<-|[<-|[<-|[]]]] Hne; [exfalso; apply Hne; vm_compute; reflexivity| |].
+    all: unfold accepted; split; [vm_compute; reflexivity|]; split; [eexists; split; vm_compute; reflexivity|]; split; [vm_compute; reflexivity|].
+    all: eexists; vm_compute; left; reflexivity. }
+  destruct (proposal_delivered_then_commits 1 cm4 total4 honest4 cfg4 (fun _ => eq_refl) nowm noshut fresh0 lead1 0 hA Q3 Qnd Qgood Qq Qthird
+              [] ppA (wrun_nil _ _ _ _ _ _ _ _) ltac:(vm_compute; auto) JL eq_refl ltac:(vm_compute; reflexivity) Ha Hacc) as (ext & A & _ & C0).
+  exists ext. split; [exact A|]. intros i Hi. destruct (C0 i Hi) as [_ C2]. apply C2.
+  destruct Hi as [<-|[<-|[<-|[]]]]; vm_compute; reflexivity.
+Qed.
